@@ -135,12 +135,35 @@ def check(index, ctx):
                     f"{counts} .grad writes on a single pass through the loop body", fn.loc())
         # ... and no iteration of the loop over the keys goes round without one: `if <something about the value>: continue` before the write leaves
         # the .grad of a requested tensor neither created nor updated
+        # in-place updates of an existing .grad count as writes here: `x.grad.add_(v)`, `g = x.grad ... g.add_(v)` / `g += v`, `torch.add(..., out=x.grad)`
+        def _is_grad(e_, al_):
+            if isinstance(e_, ast.NamedExpr):
+                e_ = e_.value
+            return (isinstance(e_, ast.Attribute) and e_.attr == "grad") or (isinstance(e_, ast.Name) and e_.id in al_) or \
+                (isinstance(e_, ast.Call) and isinstance(e_.func, ast.Name) and e_.func.id == "getattr" and len(e_.args) >= 2
+                 and isinstance(e_.args[1], ast.Constant) and e_.args[1].value == "grad")
+        al_ = set()
+        for a_ in ast.walk(fn.node):
+            if isinstance(a_, ast.Assign) and len(a_.targets) == 1 and isinstance(a_.targets[0], ast.Name) and _is_grad(a_.value, ()):
+                al_.add(a_.targets[0].id)
+            elif isinstance(a_, ast.NamedExpr) and isinstance(a_.target, ast.Name) and _is_grad(a_.value, ()):
+                al_.add(a_.target.id)
+        def _updates(st_):
+            for x_ in ast.walk(st_):
+                if isinstance(x_, ast.Call) and isinstance(x_.func, ast.Attribute) and x_.func.attr.endswith("_") and not x_.func.attr.endswith("__") and _is_grad(x_.func.value, al_):
+                    return True
+                if isinstance(x_, ast.Call) and any(k_.arg == "out" and _is_grad(k_.value, al_) for k_ in x_.keywords):
+                    return True
+                if isinstance(x_, ast.AugAssign) and isinstance(x_.target, ast.Name) and x_.target.id in al_:
+                    return True
+            return False
+        unodes = wnodes + [n for n in cfg.stmt_nodes() if n not in wnodes and n.kind == "stmt" and n.ast is not None and isinstance(n.ast, (ast.Expr, ast.AugAssign, ast.Assign)) and _updates(n.ast)]
         for ln in [n for n in cfg.nodes if n.kind == "for" and any(any(w.ast is x for x in ast.walk(n.ast)) for w in wnodes)]:
             seen_, todo_ = set(), [m for m, _ in cfg.succ[ln] if m.ast is not None and any(m.ast is x for b_ in ln.ast.body for x in ast.walk(b_))]
             skipping = None
             while todo_:
                 c_ = todo_.pop()
-                if c_ in seen_ or c_ in wnodes:
+                if c_ in seen_ or c_ in unodes:
                     continue
                 seen_.add(c_)
                 for m, lbl in cfg.succ[c_]:
